@@ -24,14 +24,15 @@ def catalogue():
     for d in (0, 1, 2, 3):
         cat.append(dict(kind="illtyped", depth=d))
     cat.append(dict(kind="mixed-keys"))
+    cat.append(dict(kind="ok-badrepr", v=77))       # fault-free call on a target that cannot be formatted with %s
     # dicts whose keys cannot be put in order (different types, one type but not mutually orderable, comparison raising an
     # ArithmeticError, combinations), as argument AND as result (echo), at depth d
     for i, v in enumerate(DICT_KEY_VARIANTS):
-        cat.append(dict(kind="dict-keys", variant=v, depth=i % 3))
+        cat.append(dict(kind="dict-keys", variant=v, depth=i % 3, r5=1))
     # exceptions that cannot be rendered (__str__ / __repr__ raising, __str__ not returning text, an unprintable argument,
     # a format error inside __str__)
     for i, c in enumerate(UNRENDERABLE):
-        cat.append(dict(kind="raise", cls=c, msg=MSGS[(3 * i + 1) % len(MSGS)]))
+        cat.append(dict(kind="raise", cls=c, msg=MSGS[(3 * i + 1) % len(MSGS)], r5=1))
     for d in (0, 2):
         cat.append(dict(kind="arg-surrogate", depth=d))
     for i, m in enumerate(MSGS):
@@ -54,7 +55,7 @@ def catalogue():
         cat.append(dict(kind="relay", cls=c, msg=MSGS[(2 * i + 4) % len(MSGS)]))
     # the relay path does not truncate again: fields that are exactly at / were cut to their byte limits
     for m in (["ascii", 1000], ["latin", 501], ["astral", 300], ["ascii", 5000]):
-        cat.append(dict(kind="relay", cls="LongNameError", msg=m))
+        cat.append(dict(kind="relay", cls="LongNameError", msg=m, r5=1))
     for i, c in enumerate(("ValueError", "MyDeepError", "CafeError", "Rejected@beta")):
         cat.append(dict(kind="relay", cls=c, msg=MSGS[(5 * i + 2) % len(MSGS)]))
     # arguments whose resolution fails asynchronously on the callee: a third-party reference (gift) that the callee's Tub
@@ -97,9 +98,10 @@ def multi_catalogue(thorough):
     if thorough:
         vecs += [(a, b, c) for a in NONOK for b in NONOK for c in NONOK]
     out = []
-    for v in vecs:
+    for vi, v in enumerate(vecs):
         out.append(dict(kind="multi", target="typed", known=True, slots=list(v)))
-        out.append(dict(kind="multi", target="typed", known=False, slots=list(v)))
+        if thorough or vi % 2 == 0 or sum(k != "ok" for k in v) < 2:      # quick: the unknown-method variant for every other pair of faults
+            out.append(dict(kind="multi", target="typed", known=False, slots=list(v)))
         if all(k in ("ok",) + CALLER_SIDE for k in v) or thorough:
             out.append(dict(kind="multi", target="plain", slots=list(v)))
     return out
@@ -122,7 +124,20 @@ SPECIAL = [
     ("remote-message-not-utf8-encodable", dict(kind="raise", cls="ValueError", msg=["surrogate", 1])),
     ("argument-not-utf8-encodable", dict(kind="arg-surrogate", depth=1)),
     ("argument-nested-beyond-recursion-limit", dict(kind="arg-deep", depth=2000)),
+    # Broker.callFailed formats the target and the arguments for the local-failure log (InboundDelivery.logFailure, on when the
+    # Tub has logLocalFailures or the Broker has no Tub) BEFORE it sends the error: lib/Callee.v unrenderable_delivery_refuted
+    ("local-failure-log-renders-target", dict(kind="raise-badrepr", cls="ValueError", msg=["ascii", 3])),
 ]
+
+
+SPECIAL_NOTE = {
+    "local-failure-log-renders-target":
+        " -- the remote method raised ValueError on a target whose __repr__ raises, with the callee's local-failure log on (Broker "
+        "without a Tub here; the same with Tub option logLocalFailures): Broker.callFailed calls InboundDelivery.logFailure, which formats "
+        "the target and the arguments with %s BEFORE the error is sent; the exception ends in the delivery chain's log.err: no `error` is "
+        "ever sent, the caller's Deferred never fires, the PendingRequest stays in waitingForAnswers and the entry in the callee's "
+        "activeLocalCalls (lib/Callee.v: C10_unrenderable_delivery_refuted)",
+}
 
 
 def run(ctx):
@@ -131,7 +146,7 @@ def run(ctx):
                 "raising Violation after n tokens at depth d, ill-typed argument at depth d against the callee's "
                 "RemoteInterface, mixed-type dict keys, 7 exception classes x 19 message shapes (empty/ASCII/2-3-4-byte "
                 "characters, lengths around the 1000-byte limit, cut inside a character), unknown method/object, result "
-                "violating the callee's or the caller's schema, unsendable result at depth d; legal dicts whose keys cannot be ordered (8 shapes: mixed types, one type but not mutually "
+                "violating the callee's or the caller's schema, unsendable result at depth d; a target that cannot be formatted (fault-free call in the sweep; failing call = own signature); legal dicts whose keys cannot be ordered (8 shapes: mixed types, one type but not mutually "
                 "orderable, comparison raising ArithmeticError) as argument and echoed result at depth 0-2; exceptions that cannot be "
                 "rendered (__str__/__repr__ raising, non-text __str__, unprintable argument, format error); SEVERAL faults in one call: every "
                 "pair of argument positions x every pair of {callee-schema-only, caller-unserializable} fault kinds x known/"
@@ -160,12 +175,15 @@ def run(ctx):
         "hand-written; each is compared with the real code by vm_compute (Broker.scheduleCall/_doCall/callFailed instrumented in every "
         "batch; ErrorUnslicer.receiveClose + wrap_remote_failure + Failure.check, PendingRequest.fail and CopiedFailure.setCopyableState "
         "run directly) in addition to the translated shape facts",
-        "get_state is hand-written over the translated truncate and the constants / statement order read from getStateToCopy; compared "
-        "byte for byte with the real FailureSlicer",
-        "that every rejected or failing call is answered by exactly one `error` (callFailed / _callFinished -> ErrorSlicer / AnswerSlicer) "
-        "is not in the Coq model: the direct oracle checks it (every Deferred fires once, waitingForAnswers empty, callee ran exactly the "
-        "expected methods); the receive bookkeeping of those faults (unknown object / method, result violating either schema, aborted "
-        "answer) is inside the counting-receiver correspondence",
+        "get_state IS the translation of FailureSlicer.getStateToCopy (symbolic execution of its statements in source order into one "
+        "Gallina term over the translated truncate); taken as given: obj.value is not itself a Failure and obj.type is a class (python3), so "
+        "the last branch of its three-way test runs; compared byte for byte with the real FailureSlicer",
+        "the callee's answer-or-error path (lib/Callee.v) interprets the statement-by-statement translations of Broker.callFailed, "
+        "Broker._callFinished, the Deferred chain of Broker.doNextCall and CallUnslicer.reportViolation; what the application and the "
+        "serializer do (method raises, result rejected, answer not serializable, target not formattable ...) are parameters of each "
+        "delivery, observed on the real objects for the correspondence; Broker._doCall is one outcome bit (shape checked); Twisted's "
+        "Deferred chaining (a callback's exception goes to the next errback) is the interpreter's semantics; methods whose Deferred fires "
+        "later only reorder messages (the theorems count per request id)",
         "utf8_decode_ignore is exact only on prefixes of well-formed UTF-8 (proved to be the only inputs truncate gives it)",
         "Tub.setOption('expose-remote-exception-types') -> Broker._expose_remote_exception_types plumbing is checked on a "
         "real Tub/Broker once per run, the batches set the Broker attributes directly",
@@ -183,13 +201,13 @@ def run(ctx):
     # 2. sweep with the direct oracle; keeps what is needed for the correspondence
     batches = sweep(ctx, impl)
     # 3. inputs with their own signatures (genuine defects of the tree, or their regression witnesses once repaired)
-    special(ctx, impl)
+    special_batches = special(ctx, impl)
     ctx.extra["oracle_s"] = round(time.time() - t0, 1)
     t0 = time.time()
     # 4. correspondence with the Coq models
     model_ok = ok
     if not ok:
-        ok2, _ = ctx.coq_build(["lib/Failure.vo", "lib/Send.vo", "lib/Relay.vo"])
+        ok2, _ = ctx.coq_build(["lib/Failure.vo", "lib/Send.vo", "lib/Relay.vo", "lib/Callee.vo"])
         model_ok = ok2
     if model_ok:
         corr_send(ctx, impl, batches)
@@ -199,6 +217,7 @@ def run(ctx):
         ctx.extra["corr_failure_s"] = round(time.time() - t0, 1)
         t0 = time.time()
         corr_recv(ctx, impl, batches)
+        corr_callee(ctx, impl, batches + special_batches)
         corr_small(ctx, impl)
         ctx.extra["corr_recv_small_s"] = round(time.time() - t0, 1)
     if not ok:
@@ -251,6 +270,8 @@ def judge_faulty(impl, spec, d, opts):
         return None
     if k == "mixed-keys":
         return None if d["ok"] and d["value"] == {1: 2, 'a': 3} else "a dict with keys of mixed types did not round-trip: %r" % (short(d),)
+    if k == "ok-badrepr":
+        return None if d["ok"] and d["value"] == spec["v"] else "a fault-free call on a target whose repr raises got %r" % (short(d),)
     if k == "dict-keys":
         want = impl.nest(spec["depth"], impl.dict_keys_value(spec["variant"]))
         if d["ok"] and impl.canon_dict(d["value"]) == impl.canon_dict(want):
@@ -364,8 +385,8 @@ def judge_batch(ctx, impl, specs, opts, r, sigsuffix=""):
         else:
             why = judge_faulty(impl, s, d, opts)
             if why:
-                sig = ("oracle/call-not-failed" if (d is None or d.get("ok")) and s["kind"] not in ("mixed-keys", "dict-keys") else
-                       "oracle/sibling-affected" if s["kind"] in ("mixed-keys", "dict-keys") else "oracle/failure-misreported")
+                sig = ("oracle/call-not-failed" if (d is None or d.get("ok")) and s["kind"] not in ("mixed-keys", "dict-keys", "ok-badrepr") else
+                       "oracle/sibling-affected" if s["kind"] in ("mixed-keys", "dict-keys", "ok-badrepr") else "oracle/failure-misreported")
                 bad.append((sig, "call %d (%s): %s" % (i, s["kind"], why)))
     lt = r["later"]
     if len(lt) != 2 or not lt[0]["ok"] or lt[0]["value"] != 42:
@@ -375,7 +396,7 @@ def judge_batch(ctx, impl, specs, opts, r, sigsuffix=""):
                     "more than once, was not delivered intact (value and sharing): got %r"
                     % (impl.shared_value(opts.get("later_shared", "mixed")), short(lt[1]))))
     runs = {"ok": "echo", "ok-add": "add", "shared": "echo", "ok-vocab": "echo", "vocab-method": "call", "typed-ok": "ints",
-            "typed-raise": "tboom", "mixed-keys": "echo", "dict-keys": "echo", "raise": "boom", "raise-noargs": "boom_noargs",
+            "typed-raise": "tboom", "mixed-keys": "echo", "dict-keys": "echo", "ok-badrepr": "echo", "raise-badrepr": "boom", "raise": "boom", "raise-noargs": "boom_noargs",
             "result-violates-callee": "wrongresult", "result-violates-caller": "text", "result-unsendable": "unsendable_result"}
     want_exec = []
     for s in specs:
@@ -412,7 +433,7 @@ def run_one(ctx, impl, specs, opts, tag, sigsuffix=""):
     with impl.quiet():
         r = impl.run_batch(specs, opts)
     fine = judge_batch(ctx, impl, specs, opts, r, sigsuffix)
-    nontrivial = all(r["fired"]) and all((d is not None and (not d["ok"] or s["kind"] in ("ok", "ok-add", "shared", "mixed-keys", "dict-keys", "multi", "ok-vocab", "vocab-method", "typed-ok")))
+    nontrivial = all(r["fired"]) and all((d is not None and (not d["ok"] or s["kind"] in ("ok", "ok-add", "shared", "mixed-keys", "dict-keys", "ok-badrepr", "multi", "ok-vocab", "vocab-method", "typed-ok")))
                                          for s, d in zip(specs, r["results"]))
     ctx.case([tag, specs, opts], nontrivial=nontrivial and fine)
     for s, d in zip(specs, r["results"]):
@@ -477,6 +498,8 @@ def sweep(ctx, impl):
             for oi, opts in enumerate(allopts):
                 if ctx.tier != "thorough" and oi != (ci + pos) % 4:
                     continue
+                if ctx.tier != "thorough" and f.get("r5") and pos == (ci + 2) % 3:
+                    continue        # quick: the catalogue entries of round 5 at two of the three positions (rotating)
                 specs = [dict(kind="ok", v=100 + i) if i % 2 == 0 else dict(kind="ok-add", v=200 + i) for i in range(3)]
                 specs[pos] = f
                 # after every per-call fault: calls whose arguments share a container, in the same batch and later
@@ -544,6 +567,7 @@ def sweep(ctx, impl):
 
 
 def special(ctx, impl):
+    kept = []
     for name, f in SPECIAL:
         for pos in (0, 1):
             specs = [dict(kind="ok", v=1), dict(kind="ok", v=2), dict(kind="ok", v=3)]
@@ -551,6 +575,7 @@ def special(ctx, impl):
             opts = dict(unsafe=bool(pos), expose=True)
             with impl.quiet():
                 r = impl.run_batch(specs, opts)
+            kept.append((specs, opts, r))
             ctx.case(["special", name, pos], nontrivial=all(r["fired"]))
             ctx.hist("special_outcome", name + (": connection dropped" if any(r["disconnected"]) else ": connection kept"))
             # these are per-call faults: the call must fail (or succeed), siblings and the connection must not notice
@@ -565,9 +590,10 @@ def special(ctx, impl):
             else:
                 d = r["results"][pos]
                 if d is None or d["ok"]:
-                    ctx.fail("oracle/call-not-failed/" + name, "the faulty call did not fail: %r" % (short(d),), replay=replay)
+                    ctx.fail("oracle/call-not-failed/" + name, "the faulty call did not fail: %r%s" % (short(d), SPECIAL_NOTE.get(name, "")), replay=replay)
                 elif f["kind"] == "raise" and (d["type"] == "foolscap.tokens.Violation" or not d["copied"]):
                     ctx.fail("oracle/failure-misreported/" + name, "the remote exception arrived as %r" % (short(d),), replay=replay)
+    return kept
 
 
 # ------------------------------------------------------------------------------------------------ correspondence: send side
@@ -644,6 +670,10 @@ def call_tree(impl, spec):
         args = [{0: "notalist", 1: [1, "x", 3], 2: [[[1]], "x"], 3: [[[1]], [["x"]], [[2]]]}[spec["depth"]]]
     elif k == "mixed-keys":
         args = [{1: 2, 'a': 3}]
+    elif k == "ok-badrepr":
+        args = [spec["v"]]
+    elif k == "raise-badrepr":
+        args = [spec["cls"], spec["msg"][0], spec["msg"][1]]
     elif k == "dict-keys":
         args = [impl.nest(spec["depth"], impl.dict_keys_value(spec["variant"]))]
     elif k == "arg-surrogate":
@@ -771,7 +801,7 @@ def failure_cases(ctx, impl):
     cases = []
     # (class, message, unsafe, parents override, traceback override)
     for i, m in enumerate(MSGS + [["latin", 1500], ["astral", 3000], ["cjk", 333], ["cjk", 334], ["mixed", 5000]]):
-        for ci in (i, i + 3):
+        for ci in ((i, i + 3) if ctx.tier == "thorough" or i % 3 == 0 else (i,)):
             cases.append((CLASSES[ci % len(CLASSES)], impl.message(m), bool((i + ci) % 2), None, None))
     # byte lengths around every limit, with the cut at each offset inside 2-, 3- and 4-byte characters
     for pad in range(0, 5):
@@ -793,7 +823,7 @@ def failure_cases(ctx, impl):
     cases.append(("BadStrError", "x", True, None, None))
     for c in UNRENDERABLE[1:]:
         cases.append((c, "x", False, None, None))
-    for i in range(ctx.n(25, 600)):
+    for i in range(ctx.n(12, 600)):
         k = ctx.rng.choice(["ascii", "latin", "cjk", "astral", "mixed", "asciithen"])
         n = ctx.rng.choice([ctx.rng.randrange(0, 40), ctx.rng.randrange(240, 260), ctx.rng.randrange(320, 340), ctx.rng.randrange(490, 510),
                             ctx.rng.randrange(990, 1010), ctx.rng.randrange(1000, 4000)])
@@ -964,6 +994,68 @@ Eval vm_compute in map (fun q => map hcode (drain false q)) queues.
     ctx.extra["recv_correspondence_disagreements"] = nbad
     ctx.extra["drain_correspondence_cases"] = len(entries)
     ctx.extra["drain_correspondence_disagreements"] = nbadq
+
+
+def corr_callee(ctx, impl, batches):
+    """lib/Callee.v (the translated callFailed / _callFinished / doNextCall chain / reportViolation, interpreted) against the real
+    callee Broker of every batch: per `call` sequence whose request id became known, everything the model takes as a parameter
+    is observed on the real objects (DeliveryLog); the model's messages (answer / aborted answer / error, per request id),
+    its activeLocalCalls and `connection up` are compared with what was really handed to Broker.send, the real table and
+    Broker.disconnected"""
+    cases, meta = [], []
+    for bi, (specs, opts, r) in enumerate(batches):
+        dl = r["deliveries"]
+        ins = []
+        for x in dl["inbound"]:
+            if x["kind"] == "rejected":
+                ins.append("InRejected %s (mk %d false true false true 0 %s false false)" % (coq_bool(x["abort"]), x["reqid"], coq_bool(x["log_local"])))
+            else:
+                ins.append("InDelivered (mk %d %s %s %s %s %d %s %s %s)" % (
+                    x["reqid"], coq_bool(x["schema"]), coq_bool(x["ready"]), coq_bool(x["raises"]), coq_bool(x["result_ok"]),
+                    2 if r["disconnected"][1] and x is dl["inbound"][-1] and not x["raises"] and x["result_ok"] and x["ready"] and
+                    not any(t[1] == x["reqid"] for t in dl["sent"]) else x["answer"],
+                    coq_bool(x["log_local"]), coq_bool(x["repr_raises"]), coq_bool(x["render_raises"])))
+            ctx.hist("callee_inbound", x["kind"] + ("" if x["kind"] == "rejected" else ":" + ("not-ready" if not x["ready"] else "raises" if x["raises"]
+                     else "result-rejected" if not x["result_ok"] else "answer-aborted" if x["answer"] else "answered") +
+                     (" unformattable" if x["repr_raises"] else "")))
+        if any(r["disconnected"]):
+            continue          # (the model's crash outcome needs to know WHICH answer crashed: not observable after the fact)
+        cases.append(coq_list(ins))
+        meta.append(bi)
+    nbad = 0
+    for si in range(0, len(cases), 400):
+        body = """
+Local Open Scope Z_scope.
+Definition x0 : exc := {| e_type := [86]; e_str := Ok [109]; e_fallback := []; e_stack := []; e_parents := [] |}.
+Definition mk r sch rdy rs rok (ans : Z) ll rr rn : denv :=
+  {| d_reqid := r; d_schema := sch; d_ready := rdy; d_raises := rs; d_result_ok := rok;
+     d_answer := (if ans =? 0 then SOk else if ans =? 1 then SViolation else SCrash);
+     d_log_local := ll; d_repr_raises := rr; d_render_raises := rn; d_unsafe := false; d_exc := x0 |}.
+Definition mcode (m : msg) : Z * Z := match m with MAnswer r => (0, r) | MAnswerAborted r => (1, r) | MError r _ => (2, r) end.
+Definition cases : list (list inbound) := """ + coq_list(cases[si:si + 400]) + """.
+Eval vm_compute in map (fun ins => let s := handle_all ins cinit0 in (map mcode (sent s), active s, cup s)) cases.
+"""
+        try:
+            (vals,) = ctx.coq_eval("C10_callee_%d" % (si // 400), body, requires=REQ_F + ["Verif.gen.CalleeGen", "Verif.lib.Callee"])
+        except common.CoqEvalError as e:
+            ctx.fail("correspondence-broken", "lib/Callee.v could not be evaluated: " + str(e)[-1500:], has_input=False)
+            return
+        for bi, (msent, mactive, mup) in zip(meta[si:si + 400], vals):
+            ctx.traces += 1
+            specs, opts, r = batches[bi]
+            dl = r["deliveries"]
+            real = (sorted(tuple(x) for x in dl["sent"]), sorted(dl["active"]), True)
+            model = (sorted(tuple(x) for x in msent), sorted(mactive), mup)
+            if real != model:
+                nbad += 1
+                if nbad <= 2:
+                    ctx.fail("correspondence/callee-replies", "lib/Callee.v and the callee's Broker disagree on batch %s: inbound %s; model (messages "
+                             "(0 answer / 1 aborted answer / 2 error, reqID), activeLocalCalls, up) = %s, implementation %s" % (
+                                 json.dumps(specs), dl["inbound"], model, real),
+                             replay=dict(specs=specs, opts=opts, inbound=dl["inbound"], model=[list(map(list, model[0])), model[1], model[2]],
+                                         impl=[list(map(list, real[0])), real[1], real[2]]), has_input=False)
+    ctx.extra["callee_correspondence_cases"] = len(cases)
+    ctx.extra["callee_correspondence_disagreements"] = nbad
 
 
 def zl(b):
